@@ -286,6 +286,23 @@ func c06VersUnit(lvl int) core.Unit {
 				}
 			}
 		}
+		// several intervals where a later one carries a token that may parse as a version of the
+		// scheme but cannot be written into a native range (or is simply invalid): the answer for
+		// a probe inside an earlier interval must still be value xor error
+		nasty := []string{"3,0", "[3", "3]", "(3", "3)", "3;0", "3 0", "3&4", "3*", "3.x", "^3", "~3", "3-4", "3 - 4", "3@dev", "3||4", "3,", ",3", "3 ", "3\t0", "not-a-version", "3..0", "3.0-", "", "v", "3+", "+3", "3_0", "3:0", "3!0", "9999999999999999999999"}
+		for _, sch := range eco.Schemes {
+			for _, a := range nasty {
+				for _, b := range append([]string{"4", "4.0.0"}, nasty[:6]...) {
+					for _, form := range []string{">=1.0|<=2.0|>=%s|<=%s", ">=1.0.0|<=2.0.0|>=%s|<=%s", "<=2.0|>=%s|<=%s", ">=1.0|<=2.0|=%s|!=%s", ">=%s|<=%s|>=5.0|<=6.0", "!=%s|>=1.0|<=2.0|!=%s"} {
+						rs := "vers:" + sch + "/" + fmt.Sprintf(form, a, b)
+						r.Add("states", 1)
+						for _, probe := range []string{"1.5", "1.5.0", "5.5", "3", "0.1", a} {
+							check(rs, probe)
+						}
+					}
+				}
+			}
+		}
 		for _, s := range all {
 			check(s, "1.0.0")
 			check("vers:"+s, "1.0.0")
@@ -502,7 +519,7 @@ func init() {
 				"statement_counter":             steps.Available,
 			}
 		},
-		Rule:        "for all 20 ecosystems, NewVersion and NewVersionRange are run on EVERY string of length <= 3 (quick) / 4 (thorough) over the 24-character syntax alphabet [0 1 a x . - ~ ^ * , | = < > ! [ ( ] ) SP _ : + v], on the grammar-shaped candidates of the other checks, on every comparator and shorthand operator (^ ~ ~> ~= = == != .* .x brackets, hyphen) applied to every accepted universe version and probed also with that version, on every operator applied to every dotted shape of 1-6 components over {1,0,10,x,*,empty}, and on every accepted string of length <= 3 with each of 10 byte-level specials (NUL, 0x7f, 0x80, 0xff, e-acute, an Arabic-Indic digit, NBSP, TAB, LF, CR) inserted before / substituted at every position; vers.Contains on 'vers:<scheme>/' + every string <= L over a 16-character alphabet for 11 schemes + 2 invalid ones, as range and as probe, plus raw strings and specials; CLI vectors; 22 growth families (digit runs, separator runs, operator runs, brackets, || and comma repetition ...) at n = 1k..4k (thorough ..16k, digit runs 96k) for every parser. Oracle: no panic; exactly one of value/error; follow-up Compare/String/Contains (twice on the same range object) do not panic; error => false for vers; every call stays within 50*n^2+1e6 injected-statement steps (an exceeded budget aborts the call deterministically - this is how hangs are detected) and steps(2n)/steps(n) <= 4.6 for every family. distinct_nontrivial = accepted inputs (those that exercise the follow-up operations).",
+		Rule:        "for all 20 ecosystems, NewVersion and NewVersionRange are run on EVERY string of length <= 3 (quick) / 4 (thorough) over the 24-character syntax alphabet [0 1 a x . - ~ ^ * , | = < > ! [ ( ] ) SP _ : + v], on the grammar-shaped candidates of the other checks, on every comparator and shorthand operator (^ ~ ~> ~= = == != .* .x brackets, hyphen) applied to every accepted universe version and probed also with that version, on every operator applied to every dotted shape of 1-6 components over {1,0,10,x,*,empty}, and on every accepted string of length <= 3 with each of 10 byte-level specials (NUL, 0x7f, 0x80, 0xff, e-acute, an Arabic-Indic digit, NBSP, TAB, LF, CR) inserted before / substituted at every position; vers.Contains on 'vers:<scheme>/' + every string <= L over a 16-character alphabet for 11 schemes + 2 invalid ones, as range and as probe, plus raw strings and specials, plus 6 multi-interval forms whose later bounds come from a list of 31 range-unsafe tokens ('3,0', '[3', '3 - 4', ...) probed inside the earlier interval; CLI vectors; 22 growth families (digit runs, separator runs, operator runs, brackets, || and comma repetition ...) at n = 1k..4k (thorough ..16k, digit runs 96k) for every parser. Oracle: no panic; exactly one of value/error; follow-up Compare/String/Contains (twice on the same range object) do not panic; error => false for vers; every call stays within 50*n^2+1e6 injected-statement steps (an exceeded budget aborts the call deterministically - this is how hangs are detected) and steps(2n)/steps(n) <= 4.6 for every family. distinct_nontrivial = accepted inputs (those that exercise the follow-up operations).",
 		Assumptions: []string{"statements are counted by overlay-injected counters in the repository's own sources; standard-library loops (regexp, strings, strconv) are not counted and are trusted to be at most quadratic", "the quantifier's coverage-guided fuzzing is not used (sampling); strings over characters outside the alphabet and specials are not explored"},
 	})
 }
